@@ -68,7 +68,7 @@ PROPS['C17'] = dict(
          '(alignment gaps, scratch behind `used`, leftovers of failed encodes) are not modelled; they are never read.')
 
 PROPS['C11'] = dict(
-    sess=[('sweep_c11', 600, 8000), ('sess_c11', 200, 3000)],
+    sess=[('sweep_c11', 600, 8000), ('sess_c11', 200, 3000), ('py_edges', 200, 3000)],
     events='wrf', state=['conn', 'live', 'cp', 'ev'],
     monitors=[M.mon_c11],
     title='a dead connection handle stays dead and never touches the transport again',
@@ -82,7 +82,7 @@ PROPS['C11'] = dict(
          'NotReady, InvalidRequest, BufferTooSmall, InflightExhausted, send-time PacketTooLarge) are modelled as the code has them.')
 
 PROPS['C14'] = dict(
-    sess=[('sess_c14', 400, 5000)],
+    sess=[('sess_c14', 400, 5000), ('py_edges', 300, 4000)],
     events='wr', state=['mps', 'ret', 'rel', 'ctl', 'conn', 'live', 'rb', 'pl'],
     monitors=[M.mon_c14],
     title='Maximum Packet Size is honoured in both directions',
@@ -153,7 +153,7 @@ PROPS['C18'] = dict(
 PROPS['C08'] = dict(
     codec=[('decode_exh', 0, 0), ('decode_hdr', 0, 0), ('decode_utf8', 0, 0), ('decode_gen', 3000, 40000),
            ('decode_props', 2000, 30000), ('reader', 2000, 30000)],
-    sess=[('sess_c08', 300, 4000)],
+    sess=[('sess_c08', 300, 4000), ('py_edges', 200, 3000)],
     events='wrf', state=['ret', 'rel', 'ctl', 'srv', 'live', 'conn', 'rb', 'pl', 'quota'],
     monitors=[M.mon_panic, M.mon_c08, M.mon_c11], codec_monitors=[M.mon_decode],
     title='any inbound bytes: valid packets accepted verbatim, malformed rejected, no panic',
@@ -244,7 +244,7 @@ PROPS['C01'] = dict(
 
 PROPS['C04'] = dict(
     codec=[('decode_gen', 1500, 20000)],
-    sess=[('py_c04', 400, 6000), ('sess_c04', 300, 5000), ('sess_base', 100, 2000)],
+    sess=[('py_c04', 400, 6000), ('sess_c04', 300, 5000), ('sess_base', 100, 2000), ('py_edges', 200, 3000)],
     events='wrf', state=['srv', 'ctl', 'conn', 'live', 'sp', 'rb', 'pl'],
     monitors=[M.mon_c04, M.mon_panic],
     codec_monitors=[M.mon_decode],
@@ -264,7 +264,7 @@ PROPS['C04'] = dict(
          'delivered (see DESIGN.md). Trusted: Coq kernel, model, extraction, harness, Python reference. No axioms.')
 
 PROPS['C12'] = dict(
-    sess=[('py_c12', 300, 5000), ('sweep_c12', 400, 8000), ('sess_c12', 200, 4000)],
+    sess=[('py_c12', 300, 5000), ('sweep_c12', 400, 8000), ('sess_c12', 200, 4000), ('py_edges', 200, 3000)],
     events='wrf', state=['cap', 'used', 'ret', 'ctl', 'rel', 'rb', 'pl', 'np', 'pt', 'resumed', 'sp', 'conn', 'live', 'cp', 'cid'],
     monitors=[M.mon_c12, M.mon_panic],
     title='the session can always be reconnected, whatever happened before',
